@@ -217,6 +217,9 @@ impl VisitMut for OptChainVisitor<'_> {
                         // Do not call to visit_mut_children_with
                         return;
                     }
+
+                    self.visit_mut_chain_spine(expr);
+                    return;
                 } else if !opt_chain_expr.optional {
                     if let OptChainBase::Call(opt_call) = &*opt_chain_expr.base {
                         if let Expr::OptChain(opt_chain_expr) = *opt_call.clone().callee {
@@ -236,13 +239,33 @@ impl VisitMut for OptChainVisitor<'_> {
                     }
                 }
 
-                expr.visit_mut_children_with(self);
+                self.visit_mut_chain_spine(expr);
             }
 
-            _ => {
-                expr.visit_mut_children_with(self);
-            }
+            // anything else (arguments, computed keys, the base of the chain...) is not part of
+            // this chain: optional chains nested in there are rewritten on their own
+            _ => {}
         };
+    }
+}
+
+impl OptChainVisitor<'_> {
+    /// Follows the chain towards its base: the object of a member access or the callee of a call,
+    /// never their arguments or computed properties.
+    fn visit_mut_chain_spine(&mut self, expr: &mut Expr) {
+        match expr {
+            Expr::OptChain(opt_chain_expr) => match &mut *opt_chain_expr.base {
+                OptChainBase::Member(member_expr) => member_expr.obj.visit_mut_with(self),
+                OptChainBase::Call(call_expr) => call_expr.callee.visit_mut_with(self),
+            },
+            Expr::Member(member_expr) => member_expr.obj.visit_mut_with(self),
+            Expr::Call(call_expr) => {
+                if let Callee::Expr(callee) = &mut call_expr.callee {
+                    callee.visit_mut_with(self)
+                }
+            }
+            _ => {}
+        }
     }
 }
 
